@@ -21,7 +21,7 @@ theorem rounds_add (fp : Hash → Bool) : ∀ (n k : Nat) (c : Cfg),
     rfl
 
 /-- from a configuration in which both pictures are fresh, the measure bounds the rounds -/
-theorem main_T (fp : Hash → Bool) (u : List Hash) : ∀ (k : Nat) (c : Cfg), Reachable fp c →
+theorem main_T (fp : Hash → Bool) (u : List Hash) : ∀ (k : Nat) (c : Cfg), Good c →
     Fresh c → Cover c → Univ u c → miss u c ≤ k →
     ∃ n, n ≤ k + 1 ∧ Quiescent fp (rounds fp n c) := by
   intro k
@@ -37,29 +37,29 @@ theorem main_T (fp : Hash → Bool) (u : List Hash) : ∀ (k : Nat) (c : Cfg), R
     by_cases hs : SameSet c
     · exact ⟨1, by omega, phase_Q fp hr hf.linkAB hf.linkBA hs⟩
     · have hlt := phase_P fp hr hf hc hu hs
-      have rd := round_docs hr
+      have rd := round_docs (fp := fp) hr
       rcases phase_G fp hr hf with h | ⟨h1, h2⟩
-      · exact ⟨2, by omega, phase_Q fp hr.round rd.linkAB rd.linkBA h⟩
-      · obtain ⟨n, hn, hq⟩ := ih (round fp c) hr.round h1 h2 (hu.round hr) (by omega)
+      · exact ⟨2, by omega, phase_Q fp (hr.round fp) rd.linkAB rd.linkBA h⟩
+      · obtain ⟨n, hn, hq⟩ := ih (round fp c) (hr.round fp) h1 h2 (hu.round (fp := fp) hr) (by omega)
         exact ⟨n + 1, by omega, hq⟩
 
 /-- the round bound relative to a universe of hashes -/
-theorem progress_univ (fp : Hash → Bool) {c : Cfg} (hr : Reachable fp c) {u : List Hash}
+theorem progress_univ (fp : Hash → Bool) {c : Cfg} (hr : Good c) {u : List Hash}
     (hu : Univ u c) : ∃ n, n ≤ miss u c + 4 ∧ Quiescent fp (rounds fp n c) := by
-  have rd1 := round_docs hr
-  have hr1 := hr.round
-  have hu1 := hu.round hr
-  have m1 := miss_round_le hr u
-  have rd2 := round_docs hr1
-  have hr2 := hr1.round
-  have hu2 := hu1.round hr1
-  have m2 := miss_round_le hr1 u
+  have rd1 := round_docs (fp := fp) hr
+  have hr1 := (hr.round fp)
+  have hu1 := hu.round (fp := fp) hr
+  have m1 := miss_round_le (fp := fp) hr u
+  have rd2 := round_docs (fp := fp) hr1
+  have hr2 := (hr1.round fp)
+  have hu2 := hu1.round (fp := fp) hr1
+  have m2 := miss_round_le (fp := fp) hr1 u
   rcases phase_E fp hr1 rd1.linkAB rd1.linkBA with hs | hf
   · exact ⟨3, by omega, phase_Q fp hr2 rd2.linkAB rd2.linkBA hs⟩
-  · have rd3 := round_docs hr2
-    have hr3 := hr2.round
-    have hu3 := hu2.round hr2
-    have m3 := miss_round_le hr2 u
+  · have rd3 := round_docs (fp := fp) hr2
+    have hr3 := (hr2.round fp)
+    have hu3 := hu2.round (fp := fp) hr2
+    have m3 := miss_round_le (fp := fp) hr2 u
     rcases phase_G fp hr2 hf with hs | ⟨h1, h2⟩
     · exact ⟨4, by omega, phase_Q fp hr3 rd3.linkAB rd3.linkBA hs⟩
     · obtain ⟨n, hn, hq⟩ := main_T fp u (miss u (round fp (round fp (round fp c)))) _ hr3 h1 h2 hu3
@@ -84,13 +84,17 @@ theorem miss_eq_missing (c : Cfg) : miss (c.docA.hashes ++ c.docB.hashes) c = mi
   rw [List.filter_append, List.filter_append, filter_self_nil, filter_self_nil]
   simp
 
-theorem progress (fp : Hash → Bool) {c : Cfg} (hr : Reachable fp c) :
+theorem progress_good (fp : Hash → Bool) {c : Cfg} (hr : Good c) :
     ∃ n, n ≤ bound c ∧ Quiescent fp (rounds fp n c) := by
   have hu : Univ (c.docA.hashes ++ c.docB.hashes) c := by
     intro h hh; exact List.mem_append.mpr hh
   obtain ⟨n, hn, hq⟩ := progress_univ fp hr hu
   rw [miss_eq_missing] at hn
   exact ⟨n, hn, hq⟩
+
+theorem progress (fp : Hash → Bool) {c : Cfg} (hr : Reachable fp c) :
+    ∃ n, n ≤ bound c ∧ Quiescent fp (rounds fp n c) :=
+  progress_good fp (Good.of_reachable fp hr)
 
 theorem missing_le (c : Cfg) : missing c ≤ c.docA.applied.length + c.docB.applied.length := by
   unfold missing missingDocs
@@ -123,9 +127,8 @@ theorem topo_nodup : ∀ (l : List Change), Topo l → (l.map (·.hash)).Nodup
     simp only [List.map_cons]
     exact List.nodup_cons.mpr ⟨ht.2.1, topo_nodup rest ht.2.2⟩
 
-theorem missing_le_distinct (fp : Hash → Bool) {c : Cfg} (hr : Reachable fp c) :
+theorem missing_le_distinct {c : Cfg} (inv : Inv c) :
     missing c ≤ 2 * (c.docA.hashes ++ c.docB.hashes).eraseDups.length := by
-  have inv := Inv.of_reachable fp hr
   have hA : c.docA.hashes.length ≤ (c.docA.hashes ++ c.docB.hashes).eraseDups.length :=
     length_le_of_nodup_subset _ _ (topo_nodup _ inv.a.wf.topo)
       (fun x hx => List.mem_eraseDups.mpr (List.mem_append_left _ hx))
